@@ -1,6 +1,8 @@
 (* Property C03 (part 1): index arithmetic of the column-by-column scheme, translated from the source. *)
-From Coq Require Import ZArith Bool.
-From QV Require Import GenLib Gen_isometry_counts IsoGen.
+From Coq Require Import ZArith Bool List Reals.
+From Coquelicot Require Import Complex.
+From QV Require Import GenLib Gen_isometry_counts IsoGen KnillPhase.
+Import ListNotations.
 Open Scope Z_scope.
 
 Theorem C03_a_spec : forall k i, 0 <= i -> _a k i = Z.shiftr k i.
@@ -14,3 +16,10 @@ Proof. exact k_s_spec. Qed.
 Print Assumptions C03_k_s_spec.
 Example ex_abk : _a 13 2 = 3 /\ _b 13 2 = 1 /\ _k_s 13 2 = 1 /\ _k_s 13 1 = 0.
 Proof. vm_compute. auto. Qed.
+
+(* Knill scheme, the phase step: x layer, multi-controlled phase on the last qubit, x layer = phase on |0..0> only *)
+Theorem C03_knill_phase : forall (cs : list nat) (t : nat) (theta : R) (psi : Sem.state), NoDup (cs ++ [t]) ->
+  krun (map KX (cs ++ [t]) ++ [KMCP theta cs t] ++ map KX (cs ++ [t])) psi
+  = fun b => if allzero (cs ++ [t]) b then (cisK theta * psi b)%C else psi b.
+Proof. exact knill_phase. Qed.
+Print Assumptions C03_knill_phase.
